@@ -67,6 +67,8 @@ inductive Guard where
   | typeInBuiltins (names : List String)   -- type_ in {list, set, ...}
   | isGenericAlias                         -- isinstance(type_, types.GenericAlias)
   | typeIsProtocolMeta                     -- type(type_) == _ProtocolMeta
+  | typeIsNamedTupleClass                  -- isinstance(type_, type) and issubclass(type_, tuple) and hasattr(type_, '_fields')
+  | objIsinstanceType                      -- isinstance(obj, type_)
   | typeIsNone                             -- type_ is None
   | typeIsStr                              -- isinstance(type_, str)
   | resolvedIsClass                        -- isinstance((context or {}).get(type_), type)
@@ -105,7 +107,10 @@ inductive Action where
   | returnRecurseResolved                  -- return REC(obj, resolve_forward_ref(type_.__forward_arg__, context))
   | returnIsinstanceSupertype              -- return isinstance(obj, type_.__supertype__)
   | bindFieldTypes (attr : String)         -- field_types = type_.<attr>
-  | returnQuantFields (q : String) (lazy : Bool)     -- return <q>([REC(obj._asdict()[k], v) for k, v in field_types.items()])
+  | bindFieldTypesFirstOf (attrs : List String)   -- field_types = getattr(type_, a1, None) or getattr(type_, a2, {})
+  | bindAsDict                             -- as_dict = obj._asdict()
+  | returnQuantFields (q : String) (lazy : Bool) (onlyPresent : Bool)
+                                           -- return <q>([REC(obj._asdict()[k], v) for k, v in field_types.items() <if k in as_dict>])
   | returnRecurseConverted                 -- return REC(obj, convert_to_typing_types(type_))
   | returnIsinstanceType                   -- return isinstance(obj, type_)
   | requireArg (i : Nat)                   -- <local> = args[i]
@@ -278,6 +283,8 @@ class FuncTranslator:
             s = self.canon(e)
             if s == '$obj == () and $args == ((),)':
                 return '.objEmptyAndArgsUnit'
+            if s == "isinstance($type, type) and issubclass($type, tuple) and hasattr($type, '_fields')":
+                return '.typeIsNamedTupleClass'
             parts = [self.guard(v) for v in e.values]
             op = '.and' if isinstance(e.op, ast.And) else '.or'
             out = parts[-1]
@@ -307,6 +314,7 @@ class FuncTranslator:
             '$obj._asdict().keys() == $fields.keys()': '.asdictKeysEqFieldKeys',
             'isinstance($type, types.GenericAlias)': '.isGenericAlias',
             'type($type) == _ProtocolMeta': '.typeIsProtocolMeta',
+            'isinstance($obj, $type)': '.objIsinstanceType',
             '$type is None': '.typeIsNone',
             'isinstance($type, str)': '.typeIsStr',
             'isinstance(($ctx or {}).get($type), type)': '.resolvedIsClass',
@@ -414,7 +422,9 @@ class FuncTranslator:
         if inner == '_is_instance($c0, $c1, $tv, $ctx) for $c0, $c1 in zip($obj, $args)':
             return f'(.returnQuantZip {lean_str(name)} {lean_bool(lazy)})'
         if inner == '_is_instance($obj._asdict()[$c0], $c1, $tv, $ctx) for $c0, $c1 in $fields.items()':
-            return f'(.returnQuantFields {lean_str(name)} {lean_bool(lazy)})'
+            return f'(.returnQuantFields {lean_str(name)} {lean_bool(lazy)} false)'
+        if inner == '_is_instance($asdict[$c0], $c1, $tv, $ctx) for $c0, $c1 in $fields.items() if $c0 in $asdict':
+            return f'(.returnQuantFields {lean_str(name)} {lean_bool(lazy)} true)'
         if inner == '$c0.__name__ == $type for $c0 in type($obj).__mro__' and name == 'any':
             return '.returnAnyMroNameEqType'
         m = re.fullmatch(r'(.+) for \$c0, \$c1 in \$obj', inner)
@@ -553,6 +563,13 @@ class FuncTranslator:
         if v in ('$type._field_types', '$type.__annotations__'):
             self.scope[t.id] = '$fields'
             return self.act(f'(.bindFieldTypes {lean_str(v.split(".")[1])})', s, 'bind')
+        m = re.fullmatch(r"getattr\(\$type, '(\w+)', None\) or getattr\(\$type, '(\w+)', \{\}\)", v)
+        if m:
+            self.scope[t.id] = '$fields'
+            return self.act(f'(.bindFieldTypesFirstOf [{lean_str(m.group(1))}, {lean_str(m.group(2))}])', s, 'bind')
+        if v == '$obj._asdict()':
+            self.scope[t.id] = '$asdict'
+            return self.act('.bindAsDict', s, 'bind')
         m = re.fullmatch(r'\$args\[(\d+)\]', v)
         if m:
             self.scope[t.id] = v
